@@ -437,7 +437,8 @@ def structural(ctx0):
         rb = type_branches(km["_fromString_PRIVATE_BLOB"], "reader")
         edb = rb.get(b"ssh-ed25519", [])
         ctx.need(edb, "_fromString_PRIVATE_BLOB: branch for ssh-ed25519")
-        ks = [x for x in ast.walk(ast.Module(body=list(edb), type_ignores=[])) if _slice(x) and _slice(x)[1] is None and _slice(x)[2] is not None]
+        ks = [x for x in ast.walk(ast.Module(body=list(edb), type_ignores=[])) if _slice(x) and (_slice(x)[1] is None or _c(_slice(x)[1]) == 0) and _slice(x)[2] is not None
+              and not (isinstance(_slice(x)[0], ast.Call) and call_attr(_slice(x)[0]) in ("getNS", "getMP"))]      # a cut of a string read, not of the tuple of strings
         ctx.need(len(ks) == 1, "_fromString_PRIVATE_BLOB: k = <k||a>[:n]")
         ctx.check(_c(_slice(ks[0])[2]) == 32, "keys/field-schema", QK + "_fromString_PRIVATE_BLOB | Ed25519 k",
                   "the Ed25519 private scalar is not the first 32 bytes of the 'k || a' string")
